@@ -551,6 +551,13 @@ func gen(c *vh.Ctx) Case {
 		return genSch(r, false)
 	case x < 98:
 		return genSch(r, true)
+	case x < 99:
+		p := &pool{r: r}
+		ins, _ := baseInputs(r, p, 1, false)
+		ins[0].Script = scriptHex(1)
+		ins[0].Type = 0
+		return Case{Op: "mixed", Kind: []string{"mixed-mint", "mixed-deposit"}[r.Intn(2)], Inputs: ins, Privs: p.privs,
+			NMaps: 1, TxType: -1, Sum: r.Intn(2)}
 	default:
 		p := &pool{r: r}
 		ins, _ := baseInputs(r, p, 1, false)
